@@ -108,6 +108,7 @@ class Analysis:
         self._stack: Set[tuple] = set()
         self._memo: Dict[tuple, object] = {}
         self._env: List[Dict[str, object]] = []
+        self._inl: Dict[str, bool] = {}
         self._partial_targets: Set[str] = set()
         self.funcs = [f for f in self.P.all_funcs()
                       if modules is None or f.module.name in modules or any(f.module.name.startswith(m + ".") for m in modules)]
@@ -332,9 +333,11 @@ class Analysis:
                 self._env.pop()
         if isinstance(e, ast.Dict):
             out = BOT
-            for k in e.keys:
+            for k, v in zip(e.keys, e.values):
                 if k is not None:
                     out = join(out, flat(self.ev(fi, n, k, depth + 1)))
+                if getattr(dom, "dict_values", False):
+                    out = join(out, flat(self.ev(fi, n, v, depth + 1)))
             return out
         if isinstance(e, ast.Starred):
             return self.ev(fi, n, e.value, depth + 1)
@@ -428,7 +431,7 @@ class Analysis:
             # container additions (flow-insensitive): x.append(E) / x.add(E) / x[K] = V / x.extend(E)
             extra = self._container_adds(fi, name, depth)
             if extra is not None:
-                out = join(flat(out) if out is not None else BOT, flat(extra))
+                out = join(out if out is not None else BOT, extra)
             return out if out is not None else BOT
 
     def _container_adds(self, fi: FuncInfo, name: str, depth: int):
@@ -443,7 +446,7 @@ class Analysis:
             for c in m.calls():
                 if isinstance(c.func, ast.Attribute) and isinstance(c.func.value, ast.Name) and c.func.value.id == name \
                         and c.func.attr in ("append", "add", "extend", "update", "insert", "appendleft") and c.args:
-                    out = join(out, flat(self.ev(fi, m, c.args[-1], depth + 1)))
+                    out = join(out, self.ev(fi, m, c.args[-1], depth + 1))
         return out
 
     def _free_name(self, fi: FuncInfo, name: str, depth: int):
@@ -585,6 +588,10 @@ class Analysis:
         m = dom.call(self, fi, n, c, real, args, recv)
         if m is not None:
             return m
+        if real in ("collections.deque", "list", "tuple", "set", "frozenset", "iter", "sorted", "reversed") and len(args) == 1:
+            return args[0]
+        if isinstance(c.func, ast.Attribute) and c.func.attr in ("popleft", "pop", "copy") and recv is not None and not c.args:
+            return recv
         if isinstance(c.func, ast.Attribute):
             m = dom.method(self, fi, n, c, c.func.attr, recv, args)
             if m is not None:
@@ -594,6 +601,29 @@ class Analysis:
             return frozenset({"OBJ:" + r.how.split(":", 1)[1]})
         if r.how.startswith("ctor") or r.how == "dict-dispatch":
             return dom.OBJ
+        if len(r.targets) == 1 and self._inlinable(r.targets[0]) and len(self._env) < 3:
+            t = r.targets[0]
+            env: Dict[str, object] = {}
+            bound = {p: a for p, a, st in self.bind_args(c, t) if not st}
+            for p in t.params:
+                if p in bound:
+                    env[p] = self.ev(fi, n, bound[p], depth + 1)
+                else:
+                    dv = self._default_value(t, p, depth + 1)
+                    if dv is not None:
+                        env[p] = dv
+            if all(p in env for p in t.params if p not in ("self", "cls")):
+                self._env.append(env)
+                try:
+                    out = None
+                    tcfg = self.ctx.cfgs.get(t)
+                    for rn in tcfg.nodes:
+                        if rn.kind == "return" and rn.ast.value is not None:
+                            out = join(out, self.ev(t, rn, rn.ast.value, depth + 1))
+                    if out is not None:
+                        return out
+                finally:
+                    self._env.pop()
         if r.targets:
             out = None
             for t in r.targets:
@@ -607,6 +637,16 @@ class Analysis:
             return BOT if any(self._returns_something(t) for t in r.targets) else dom.OBJ
         vals = list(args) + ([recv] if recv is not None else []) + [self.ev(fi, n, k.value, depth + 1) for k in c.keywords]
         return dom.unknown(vals)
+
+    def _inlinable(self, t: FuncInfo) -> bool:
+        """Small, loop-free, non-generator helper: evaluated per call site (one level of context)."""
+        k = self._inl.get(t.qualname)
+        if k is None:
+            body = [x for x in t.node.body if not (isinstance(x, ast.Expr) and isinstance(x.value, ast.Constant))]
+            k = (len(body) <= 8 and not t.is_async and t.cls is None
+                 and not any(isinstance(x, (ast.For, ast.While, ast.AsyncFor, ast.Yield, ast.YieldFrom, ast.Try, ast.With)) for x in ast.walk(t.node)))
+            self._inl[t.qualname] = k
+        return k
 
     def _returns_something(self, t: FuncInfo) -> bool:
         for x in walk_local(t.node):
